@@ -86,7 +86,7 @@ def gen_schema(rng, fragment):
         elif kind == 'm2o':
             r = {'kind': kind, 'sym': False,
                  'a': {'ent': ea, 'coll': False, 'req': rng.random() < 0.35, 'opt_casc': None},
-                 'b': {'ent': eb, 'coll': True, 'req': False, 'opt_casc': rng.choice([None, None, None, True, False])}}
+                 'b': {'ent': eb, 'coll': True, 'req': False, 'opt_casc': rng.choice([None, None, None, True, False, False])}}
             if rng.random() < 0.5: r['a'], r['b'] = r['b'], r['a']
         elif kind == 'm2m':
             r = {'kind': kind, 'sym': False,
@@ -840,6 +840,98 @@ class Run:
                     self.queued_ops = [{'k': rng.choice(['flush', 'commit']), 'noreads': True}] + steps + tail
                     self.count('gen:partial-row-move:created')
                     return cr
+        # a call that FAILS and is undone after pending (unflushed) collection changes, then the program goes on and commits: a refused
+        # delete (a Required reference without cascade points at the object: ConstraintError after the collections were already cleared
+        # as nested calls), Entity.set(coll=[..], u0=<value another cached object holds>) failing midway (CacheIndexError), a constructor
+        # with collection keywords failing the same way.  The undo has to restore items, count, added AND removed of every collection
+        # it touched: the committed link rows are what both ends showed in the session at commit
+        if 0.22 <= r < 0.32 and live:
+            cands = []
+            def refused_delete(a):
+                return any(not w.sides[w.rev(k)]['coll'] and w.sides[w.rev(k)]['req'] and not w.sides[k]['casc'] and sh.partners(a, k)
+                           for k in w.ent_rel[sh.objs[a]['ent']])
+            def key_holders(a):
+                e_ = sh.objs[a]['ent']
+                if not any(sc['unique'] for sc in w.schema['ents'][e_]['scalars']): return []
+                return [b for b in sh.live(e_) if b != a and b in self.h and sh.objs[b]['vals'].get('u0') is not None]
+            # (D) the refused delete, constructed: an object with a collection of two or three committed items and a blocker (an object whose
+            #     Required reference points at it, no cascade); one item is removed (pending), the delete is refused after it has cleared
+            #     the collection as a nested call, then commit
+            dc = []
+            for a in live:
+                oa = sh.objs[a]
+                if oa['pk'] is None: continue
+                for k in w.ent_rel[oa['ent']]:
+                    rk = w.rev(k)
+                    if w.sides[rk]['coll'] or not w.sides[rk]['req'] or w.sides[k]['casc']: continue
+                    for ckey in w.ent_rel[oa['ent']]:
+                        if w.sides[ckey]['coll'] and ckey != k: dc.append((a, k, ckey))
+            if dc and rng.random() < 0.6:
+                a, k, ckey = rng.choice(dc); rk = w.rev(k); rkey = w.rev(ckey)
+                tg = [x for x in self.usable(w.sides[rkey]['ent']) if not (w.schema['rels'][ckey[0]]['sym'] and x == a)]
+                if len(tg) >= 2:
+                    seq = []
+                    if not sh.partners(a, k):
+                        cr = self.gen_create(rs, e=w.sides[rk]['ent'])
+                        cr['refs'] = dict(cr['refs'], **{w.sides[rk]['name']: a}); cr['colls'] = {}; cr['noreads'] = True
+                        seq.append(cr)
+                    items = sorted(rng.sample(tg, min(len(tg), rng.choice([2, 2, 3]))))
+                    seq.append({'k': 'coll_set', 'o': a, 'key': list(ckey), 'items': items, 'via': 'list', 'noreads': True})
+                    seq.append({'k': 'commit', 'noreads': True})
+                    seq.append({'k': 'coll_remove', 'o': a, 'key': list(ckey), 'items': [rng.choice(items)], 'via': rng.choice(['list', 'single', 'op']), 'noreads': True})
+                    rest = [x for x in tg if x not in items]
+                    if rest and rng.random() < 0.4: seq.append({'k': 'coll_add', 'o': a, 'key': list(ckey), 'items': [rng.choice(rest)], 'via': 'single', 'noreads': True})
+                    seq.append({'k': 'delete', 'o': a, 'noreads': True})
+                    if rng.random() < 0.9: seq.append({'k': rng.choice(['commit', 'commit', 'end_ok', 'flush']), 'noreads': True})
+                    self.queued_ops = seq[1:]
+                    self.count('gen:refused-delete-after-pending-collection-change')
+                    return dict(seq[0], rs=rs)
+            for a in live:
+                oa = sh.objs[a]
+                if oa['pk'] is None or a not in self.committed.objs or not self.committed.objs[a]['alive']: continue
+                if not (refused_delete(a) or key_holders(a)): continue          # a failing call must be available
+                for ckey in w.ent_rel[oa['ent']]:
+                    if w.sides[ckey]['coll']: cands.append((a, ckey))
+            if cands:
+                a, ckey = rng.choice(cands); oa = sh.objs[a]; e = oa['ent']; rkey = w.rev(ckey)
+                sym = w.schema['rels'][ckey[0]]['sym']
+                cur = sorted(x for x in sh.partners(a, ckey) if x in self.usable())
+                tgt = [x for x in self.usable(w.sides[rkey]['ent']) if x not in cur and not (sym and x == a)]
+                pending = []
+                for _ in range(rng.choice([1, 1, 2])):
+                    if cur and rng.random() < 0.65: pending.append({'k': 'coll_remove', 'o': a, 'key': list(ckey), 'items': [rng.choice(cur)], 'via': rng.choice(['list', 'single', 'op']), 'noreads': True})
+                    elif tgt: pending.append({'k': 'coll_add', 'o': a, 'key': list(ckey), 'items': [rng.choice(tgt)], 'via': rng.choice(['list', 'single', 'op']), 'noreads': True})
+                fails = []
+                # (1) delete refused
+                for k in w.ent_rel[e]:
+                    rk = w.rev(k)
+                    if not w.sides[rk]['coll'] and w.sides[rk]['req'] and not w.sides[k]['casc'] and sh.partners(a, k):
+                        fails.append({'k': 'delete', 'o': a, 'noreads': True}); break
+                # (2) Entity.set with a collection keyword and a unique value that another object of the cache holds
+                ed = w.schema['ents'][e]
+                holders = [b for b in sh.live(e) if b != a and b in self.h and ed['scalars'] and any(sc['unique'] for sc in ed['scalars'])
+                           and sh.objs[b]['vals'].get('u0') is not None]
+                if holders:
+                    b = rng.choice(holders)
+                    items = sorted(set(rng.sample(cur, min(len(cur), rng.choice([0, 1]))) + ([rng.choice(tgt)] if tgt and rng.random() < 0.6 else [])))
+                    fails.append({'k': 'set_many', 'o': a, 'key': list(ckey), 'items': items, 'a': 'u0', 'v': sh.objs[b]['vals']['u0'],
+                                  'first': rng.choice(['coll', 'scalar']), 'noreads': True})
+                    # (3) a constructor with the same two keywords
+                    cr = self.gen_create(rs, e=e)
+                    cname = w.sides[ckey]['name']
+                    cr['colls'] = {cname: sorted(set(([rng.choice(cur)] if cur else []) + ([rng.choice(tgt)] if tgt else [])))} if (cur or tgt) else {}
+                    cr['scalars'] = dict(cr['scalars'], u0=sh.objs[b]['vals']['u0']); cr['noreads'] = True
+                    if cr['colls']: fails.append(cr)
+                if pending and fails:
+                    f = rng.choice(fails)
+                    more = []
+                    if rng.random() < 0.4 and (cur or tgt):
+                        more.append({'k': 'coll_add' if tgt and rng.random() < 0.5 else 'coll_remove', 'o': a, 'key': list(ckey),
+                                     'items': [rng.choice(tgt)] if tgt and rng.random() < 0.5 else [rng.choice(cur or tgt)], 'via': 'list', 'noreads': True})
+                    tail = [{'k': rng.choice(['commit', 'commit', 'end_ok', 'flush']), 'noreads': True}] if rng.random() < 0.9 else []
+                    self.queued_ops = pending[1:] + [f] + more + tail
+                    self.count('gen:failing-call-after-pending-collection-change:' + f['k'])
+                    return dict(pending[0], rs=rs)
         # follow-up: another call on the collection touched last, re-using the items of that call (interplay of pending additions / removals)
         lc = getattr(self, 'last_coll_gen', None)
         if lc is not None and rng.random() < 0.3 and lc[0] in live:
@@ -937,6 +1029,12 @@ class Run:
         if k == 'delete': obj.delete(); return None
         if k == 'set_scalar': setattr(obj, op['a'], op['v']); return None
         key = tuple(op['key']); name = w.sides[key]['name']
+        if k == 'set_many':
+            items = [self.resolve(x) for x in op['items']]
+            if any(x is None for x in items) or self.stop: return 'skipped'
+            kw = [(name, items), (op['a'], op['v'])]
+            if op.get('first') == 'scalar': kw.reverse()
+            obj.set(**dict(kw)); return None
         if k == 'seed_handle':
             # the program reaches an object through a reference of another one: the object is known by its key only (a seed), its row is not loaded
             x = getattr(obj, name)
@@ -976,6 +1074,8 @@ class Run:
         elif k == 'coll_remove': sh.coll_remove(op['o'], tuple(op['key']), op['items'])
         elif k == 'coll_set': sh.coll_set(op['o'], tuple(op['key']), op['items'])
         elif k == 'coll_clear': sh.coll_set(op['o'], tuple(op['key']), [])
+        elif k == 'set_many':
+            sh.coll_set(op['o'], tuple(op['key']), op['items']); sh.set_scalar(op['o'], op['a'], op['v'])
 
     def refs_ok(self, op):
         """the recorded call still makes sense in the current state (replays of shrunk histories skip the others)"""
@@ -1028,7 +1128,7 @@ class Run:
                                         and o2['pk'] == self.sh.objs[op['oid']]['pk'] for oid2, o2 in self.sh.objs.items())
             if self.w.fragment and not self.abandoned:
                 forced = set()
-                if k == 'set_scalar': forced.add((op['o'], op['a']))
+                if k in ('set_scalar', 'set_many'): forced.add((op['o'], op['a']))
                 if k == 'set_ref' and self.w.sides[tuple(op['key'])]['has_col']: forced.add((op['o'], self.w.sides[tuple(op['key'])]['name']))
                 if self.autoflushed(mark): self.mop({'k': 'flush'}, check=False)
                 self.sync_seeds(exclude={tuple(self.key_of(op['oid']))} if k == 'create' else ())
@@ -1370,6 +1470,8 @@ class Run:
                         tg = self.usable(w.sides[w.rev(refnames[n])]['ent'])
                         crit[n] = rng.choice(tg) if tg else None
                     else: crit[n] = rng.choice([0, 1, 2, 3, 4, 5])
+                # (a deleted object's shadow has lost its references: never None for a Required attribute, by any branch - validation refuses it)
+                crit = {n: v for n, v in crit.items() if not (v is None and n in required)}
                 def val_of(oid, n):
                     x = sh.objs[oid]
                     if n == 'id': return x['pk']
